@@ -99,6 +99,10 @@ def stream_box(tier, seed, props):
         specs += list(boxes.seeded_specs(seed, 600))
     jobs = [(s, tp["passes"]) for s in specs]
     out = _pool_map(_stream_worker, jobs)
+    # second pass over the exhaustive part in the opposite order: a stream must not depend on which
+    # schedules were built before it in the same process (module- or class-level caches keyed by too
+    # few parameters show up only in one of the two orders)
+    out += _pool_map(_stream_worker, list(reversed(jobs[:exhaustive_count])))
     res = {}
     for p in props:
         res[p] = _result(
@@ -203,7 +207,8 @@ def c05(tier, seed):
     # (c) streams
     sp = list(boxes.multistage_specs(tier, splits="thin")) + \
         list(boxes.revolve_specs(tier, classes=("Revolve",)))
-    out = _pool_map(_stream_worker, [(s, 1) for s in sp])
+    # (both orders: see stream_box)
+    out = _pool_map(_stream_worker, [(s, 1) for s in sp]) + _pool_map(_stream_worker, [(s, 1) for s in reversed(sp)])
     for spec, viol, stats, nact, nontrivial, head in out:
         name, args = spec[0], spec[1]
         n = args[0]
@@ -243,7 +248,7 @@ def c06(tier, seed):
         for s in ss:
             for st in ("RAM", "DISK"):
                 sp.append(("Mixed", (n, s), (("storage", st),), n))
-    out = _pool_map(_stream_worker, [(s, 1) for s in sp])
+    out = _pool_map(_stream_worker, [(s, 1) for s in sp]) + _pool_map(_stream_worker, [(s, 1) for s in reversed(sp)])
     by = {}
     for spec, viol, stats, nact, nontrivial, head in out:
         n, s = spec[1]
@@ -459,6 +464,10 @@ def c07(tier, seed):
                  rng.choice([0, .25, 1, 2, 7, 30]), rng.choice([0, .25, 1, 2, 7, 30]))
             jobs.append((rng.randint(10, 34), rng.randint(1, 4), 3, c))
         r["exhaustive"] = False
+    # both orders: the cost of a schedule must not depend on the schedules built before it (stale
+    # tables cached under a key that omits a cost parameter)
+    njobs = len(jobs)
+    jobs = jobs + list(reversed(jobs[:njobs]))
     out = _pool_map(_c07_worker, jobs, chunk=2)
     for (viol, nruns, sample), job in zip(out, jobs):
         r["evaluations"] += nruns
@@ -1394,7 +1403,7 @@ def c19(tier, seed):
                                              "beta=%r comb=%r" % (beta(x, y), want)))
     ns = range(1, nmax + 1) if tier == "quick" else [n for n in range(1, nmax + 1) if n <= 60 or n % 7 == 0]
     jobs = [(n, cm, c) for c in boxes.COSTS for cm in range(1, 5) for n in ns]
-    out = _pool_map(_c19_worker, jobs)
+    out = _pool_map(_c19_worker, jobs) + _pool_map(_c19_worker, list(reversed(jobs)))
     periods = {}
     for job, viol, m in out:
         r["evaluations"] += 1
